@@ -264,6 +264,13 @@ PROGRAMS = [('p_locate', a) for a in LOCATE] + [('p_locate_block', ((2, 1, 2), a
            [('p_layer_containing_elevation', None), ('p_quadtree_leaf', None), ('p_in_polygon_triangle', None)]
 
 
+LOCATE_THOROUGH = [((3, 3), None), ((3, 3), ('guess', 0)), ((3, 3), ('guess', 4)), ((3, 3), 'quadtree'), ((4, 2), ('subset', 0, 5, 7)), ((4, 1), ('guess', 3)), ((3, 3), 'bounds')]
+
+
+def programs(tier):
+    return PROGRAMS + ([('p_locate', a) for a in LOCATE_THOROUGH] + [('p_locate_block', ((2, 2, 3), a)) for a in (0, 1, 2)] if tier == 'thorough' else [])
+
+
 def _fl(v):
     return 'float(__import__("fractions").Fraction(%r)/__import__("fractions").Fraction(%r))' % (v['num'], v['den']) if isinstance(v, dict) else repr(v)
 
